@@ -103,4 +103,23 @@ theorem tbit_mul_pow_add (a b : Int) (k i : Nat) (hb0 : 0 ≤ b) (hb : b < 2 ^ k
       rw [this]
     rw [this]
 
+/-- the executable short-cut of the arithmetic right shift is the arithmetic right shift -/
+theorem shrInt_eq (l : Int) (n : Nat) : shrInt l n = l >>> n := by
+  unfold shrInt
+  split
+  · rename_i h
+    have hlt : l.natAbs < 2 ^ n := (nbits_le_iff _ _).mp h
+    rw [Int.shiftRight_eq_div_pow]
+    have hp : (0 : Int) < ((2 ^ n : Nat) : Int) := by exact_mod_cast Nat.two_pow_pos n
+    split
+    · rename_i hneg
+      have : l / ((2 ^ n : Nat) : Int) = -1 ∧ l % ((2 ^ n : Nat) : Int) = l + ((2 ^ n : Nat) : Int) := by
+        rw [Int.ediv_emod_unique hp]
+        refine ⟨by omega, by omega, by omega⟩
+      simpa using this.1.symm
+    · rename_i hpos
+      have : l / ((2 ^ n : Nat) : Int) = 0 := Int.ediv_eq_zero_of_lt (by omega) (by omega)
+      simpa using this.symm
+  · rfl
+
 end Casm
